@@ -50,6 +50,8 @@ TDer(id, name, def, ref)      == It(id, "derived", name, def, ref, NoName, NoNam
 UScaled(id, typ, sym, f, of)  == It(id, "scaled", NoName, <<>>, NoName, typ, sym, f, of, <<>>, 0)
 UPlain(id, typ, sym)          == It(id, "plain", NoName, <<>>, NoName, typ, sym, NoRat, NoName, <<>>, 0)
 UTerm(id, typ, sym, items)    == It(id, "term", NoName, <<>>, NoName, typ, sym, NoRat, NoName, items, 0)
+\* a term with a plain integer factor f raised to the power n in front: f^n * items
+UTermN(id, typ, sym, f, n, items) == It(id, "term", NoName, <<>>, NoName, typ, sym, f, NoName, items, n)
 UDerive(id, typ, sym, args)   == It(id, "derive", NoName, <<>>, NoName, typ, sym, NoRat, NoName, args, 0)
 OMul(id, u1, u2)              == It(id, "mul", NoName, <<>>, NoName, NoName, u1, NoRat, u2, <<>>, 0)
 ODiv(id, u1, u2)              == It(id, "div", NoName, <<>>, NoName, NoName, u1, NoRat, u2, <<>>, 0)
@@ -97,6 +99,8 @@ AllItems == {
   UTerm("kab", "AB", "kab", << <<"ka", 1>>, <<"b", 1>> >>),
   UTerm("bad_dim", "AB", "bad", << <<"ka", 1>>, <<"ka", 1>> >>),      \* denotes A^2, not A*B
   UTerm("bad_cancel", "A", "bc", << <<"ka", 1>>, <<"a", -1>> >>),     \* the units cancel: a number, not an A unit
+  UTermN("milli_a", "A", "mla", <<1000, 1>>, -1, << <<"a", 1>> >>),    \* 1000^-1 a with the PYTHON INT 1000: 1/1000 a
+  UTermN("kilo2_a", "A", "k2a", <<10, 1>>, 2, << <<"ka", 1>> >>),       \* 10^2 ka = 1000 a
   UTerm("sq", "A2", "sq", << <<"ha", 1>>, <<"ka", 1>> >>),
   UTerm("ppka", "MpA", "ppka", << <<"p", 1>>, <<"ka", -1>> >>),
   UTerm("kbc", "A", "kbc", << <<"ka", 1>>, <<"b", 1>>, <<"cb", -1>> >>),   \* two convertible units, the later one with exponent -1
@@ -273,7 +277,8 @@ NewPlain(i) ==
 
 NewTerm(i) ==
     /\ i.act = "term" /\ HasType(i.typ) /\ ItemsKnown(i.items)
-    /\ LET num == TermNum(i.items, 1)  vec == TermVec(i.items, 1)
+    /\ LET num == IF i.f = NoRat THEN TermNum(i.items, 1) ELSE RMul(RPow(i.f, i.n), TermNum(i.items, 1))
+           vec == TermVec(i.items, 1)
            r == Resolve2(num, vec)
        IN  IF ~ValidSym(i.sym) \/ HasUnit(i.sym) \/ r.st # "ok" \/ UnitBySym(r.u).typ # i.typ
            THEN Reject(i)
